@@ -235,7 +235,7 @@ class Seq:
                     self.emit({"op": "get_global", "ctx": ctx, "key": name}, {"slot": self.new_slot(ctx, g.get(name, UNDEF)), "null": False})
         elif k < 90:      # scripts
             g = self.ctxs[ctx]["globals"]
-            kind = r.choice(["churn", "churn", "bump", "rebind", "orders", "callback", "function", "throw"])
+            kind = r.choice(["churn", "churn", "bump", "rebind", "orders", "callback", "function", "throw", "symobj", "symobj"])
             stepwise = r.chance(1, 3)
             if kind == "churn":
                 n = r.choice([50, 150, 400])
@@ -277,6 +277,20 @@ class Seq:
                 want = json.dumps({"got": json.dumps({"x": [1, 2]}, separators=(",", ":")), "argc": 2}, sort_keys=True)
                 src = "JSON.stringify((globalThis as any).cb({ x: [1, 2] }, 2))"
                 self.emit({"op": "eval", "ctx": ctx, "stepwise": stepwise, "src": src}, {"eval_json_text": want, "slot": self.new_slot(ctx, Opaque())})
+            elif kind == "symobj":
+                # objects that own symbol-keyed properties next to string-keyed ones: the C API speaks strings only
+                src, props = r.choice([
+                    ("({ a: 1, b: 2, [Symbol('s')]: 3 })", {"a": 1.0, "b": 2.0}),
+                    ("({ [Symbol('only')]: 1 })", {}),
+                    ("({ k: 7, [Symbol.iterator]: 0, [Symbol('x')]: 1, z: 8 })", {"k": 7.0, "z": 8.0}),
+                    ("({ [Symbol('p')]: 1, [Symbol('q')]: 2, [Symbol('r')]: 3, w: 5 })", {"w": 5.0}),
+                    ("(() => { class T { v = 4; } const t: any = new T(); t[Symbol('own')] = 1; t[Symbol.toStringTag] = 'T'; return t; })()", {"v": 4.0}),
+                ])
+                o = JObj()
+                o.props = dict(props)
+                self.emit({"op": "eval", "ctx": ctx, "stepwise": stepwise, "src": src}, {"eval_obj": True, "slot": self.new_slot(ctx, o)})
+                # and look at it straight away
+                self.emit({"op": "keys", "ctx": ctx, "obj": len(self.vals) - 1}, {"keys": sorted(o.props)})
             elif kind == "function":
                 f = JObj(fn=True)
                 self.emit({"op": "eval", "ctx": ctx, "stepwise": stepwise, "src": "((a: any, b: any) => ({ sum: a + b, args: [a, b] }))"},
@@ -390,7 +404,7 @@ def judge(op, exp, got):
             if parsed != want and not (isinstance(want, (int, float)) and not isinstance(want, bool) and isinstance(parsed, (int, float)) and float(parsed) == float(want)):
                 return "the handle reads %s, the host-visible value is %s" % (json.dumps(parsed)[:200], json.dumps(want)[:200])
         return None
-    if "slot" in exp and "eval" not in exp and "eval_json_text" not in exp and "eval_fn" not in exp:
+    if "slot" in exp and "eval" not in exp and "eval_json_text" not in exp and "eval_fn" not in exp and "eval_obj" not in exp:
         if got.get("slot") != exp["slot"] or bool(got.get("null")) != exp["null"]:
             return "expected %s handle in slot %d, got %r" % ("a NULL" if exp["null"] else "a", exp["slot"], got)
         if exp["null"] and op.get("op") in ("get", "get_global", "call", "object_new", "array_new", "json_parse", "array_get", "native") and not got.get("error") \
@@ -408,7 +422,10 @@ def judge(op, exp, got):
     if "keys" in exp:
         if exp["keys"] is None:
             return None if got.get("null") else "tsrun_keys with a NULL object returned %r" % got
-        return None if sorted(got.get("keys") or []) == exp["keys"] else "tsrun_keys returned %r, the object has %r" % (got.get("keys"), exp["keys"])
+        gk = got.get("keys") or []
+        if any(not isinstance(x, str) for x in gk):
+            return "tsrun_keys reported %d keys but the array holds unreadable entries %r; the object has %r" % (len(gk), gk, exp["keys"])
+        return None if sorted(gk) == exp["keys"] else "tsrun_keys returned %r, the object has %r" % (gk, exp["keys"])
     if "eval" in exp:
         v = (got.get("value") or {}).get("json")
         if got.get("status") != "complete" or v is None or float(json.loads(v)) != exp["eval"]:
@@ -423,6 +440,8 @@ def judge(op, exp, got):
         return None if got.get("status") == "complete" and inner == exp["eval_json_text"] else "script result %r, expected the JSON text %s" % (got, exp["eval_json_text"])
     if "eval_fn" in exp:
         return None if got.get("status") == "complete" and (got.get("value") or {}).get("type") == 5 else "script result %r, expected a function value" % got
+    if "eval_obj" in exp:
+        return None if got.get("status") == "complete" and (got.get("value") or {}).get("type") == 5 else "script result %r, expected an object value" % got
     if "eval_error" in exp:
         return None if got.get("status") == "error" and got.get("error") else "script result %r, expected an error" % got
     if "ctx" in exp:
